@@ -59,7 +59,12 @@ use crate::internal::cache_padded::CachePadded;
 use std::collections::VecDeque;
 use std::fmt;
 use std::task::{Context, Poll, Waker};
+#[cfg(not(excsn_fibre_verif))]
 use std::time::{Duration, Instant};
+#[cfg(excsn_fibre_verif)]
+use std::time::Duration;
+#[cfg(excsn_fibre_verif)]
+use fibre_verif_rt::time::Instant;
 
 use crate::internal::sync::{thread, AtomicU8, Mutex, Ordering, Thread};
 
